@@ -1392,6 +1392,17 @@ def merge(c, a, b):
     return ite(c, a, b)
 
 
+def sx_in(x, members):
+    "x in (constants): static answer from the interval when it decides, otherwise the ordinary (forking) membership test"
+    if isinstance(x, SymInt):
+        ms = set(members)
+        if x.hi - x.lo < 64 and all(v in ms for v in range(x.lo, x.hi + 1)):
+            return True
+        if all(m < x.lo or m > x.hi for m in ms):
+            return False
+    return x in members
+
+
 def sx_maybe_pos(v):
     "v > 0, except that a symbolic non-negative v answers True without forking (see loader._bits_init_size)"
     if isinstance(v, SymInt) and v.lo >= 0:
@@ -1410,4 +1421,4 @@ def sx_ite(test, fa, fb):
 SHIMS = dict(isinstance=sx_isinstance, int=sx_int, bytes=sx_bytes, bytearray=sx_bytearray,
              abs=sx_abs, min=sx_min, max=sx_max, sum=sx_sum, divmod=sx_divmod, range=sx_range,
              hex=sx_hex, bin=sx_bin, chr=sx_chr, ord=sx_ord, float=sx_float,
-             __sx_getitem__=sx_getitem, __sx_setitem__=sx_setitem, __sx_join__=sx_join, __sx_ite__=sx_ite, __sx_maybe_pos__=sx_maybe_pos)
+             __sx_getitem__=sx_getitem, __sx_setitem__=sx_setitem, __sx_join__=sx_join, __sx_ite__=sx_ite, __sx_maybe_pos__=sx_maybe_pos, __sx_in__=sx_in)
